@@ -26,10 +26,10 @@ RULE = ("case = configuration + request sequence, executed with two garbage fill
 ASSUMPTIONS = ["garbage written into inactive entries is finite", "with transforms, user-domain quantities are compared to 1e-12 relative"]
 REQUIRED = {"quick": {"calls_checked": 6000, "rows_checked": 35000, "values_checked": 60000, "inactive_entries_seen": 5000, "garbage_pairs_compared": 1500,
                       "evaluator_arrays_snapshotted": 10000, "delivered_arrays_checked": 60000, "memo_hits": 300, "with_filters": 400, "with_transforms": 400,
-                      "split_gradient_requests": 400, "__nontrivial__": 1500},
+                      "split_gradient_requests": 400, "row_flags_checked": 1500, "__nontrivial__": 1500},
             "thorough": {"calls_checked": 150000, "rows_checked": 800000, "values_checked": 1500000, "inactive_entries_seen": 120000, "garbage_pairs_compared": 40000,
                          "evaluator_arrays_snapshotted": 250000, "delivered_arrays_checked": 1500000, "memo_hits": 8000, "with_filters": 10000, "with_transforms": 10000,
-                         "split_gradient_requests": 10000, "__nontrivial__": 40000}}
+                         "split_gradient_requests": 10000, "row_flags_checked": 30000, "__nontrivial__": 40000}}
 N = {"quick": 3000, "thorough": 60000}
 PERSONALITIES = ["fresh", "memo", "buffer"]
 
@@ -51,6 +51,7 @@ class Ev:
         self.memo = {}
         self.buffers = {}
         self.memo_hits = 0
+        self.use_row_flag = True
 
     def __call__(self, variables, context):
         from ropt.evaluator import EvaluatorResult  # noqa: PLC0415
@@ -85,6 +86,10 @@ class Ev:
             if rec["ac"] is not None:
                 sel = ~rec["ac"][j, rec["realizations"]]
                 vals[sel, self.n_obj + j] = -self.garbage * (1 + j) - np.arange(n)[sel]
+        if rec["active"] is not None and self.use_row_flag:
+            # evaluators typically consult only the per-realization flag: rows flagged inactive get garbage in every column
+            sel = ~rec["active"][rec["realizations"]]
+            vals[sel, :] = self.garbage * 3.0 + np.arange(n)[sel, None]
         rec["true"] = true_vals
         if self.personality == "buffer":
             bo = self.buffers.setdefault(("o", n), np.empty((n, self.n_obj)))
@@ -360,6 +365,27 @@ def run_case(case, obs):
                         if vv[q] != ret["info"][kk][i]:
                             obs.violation("evaluation_info_not_for_label", key=kk, label=got[i], reported=vv[q], returned=ret["info"][kk][i])
                             return
+            # ---- the per-realization flag is the union of the per-function flags
+            parts = [f for f in (rec["ao"], rec["ac"]) if f is not None]
+            if rec["active"] is not None or parts:
+                obs.count("row_flags_checked")
+                if rec["ao"] is None and rec["ac"] is None:
+                    want_active = None
+                elif (rec["ao"] is None and n_obj) or (rec["ac"] is None and n_con):
+                    want_active = None if not parts else (np.ones(R, dtype=bool) if False else None)
+                    # one side unflagged (= all active): every realization is needed
+                    want_active = np.ones(R, dtype=bool)
+                else:
+                    want_active = np.logical_or.reduce(np.vstack(parts), axis=0)
+                got_active = rec["active"]
+                if want_active is None:
+                    okf = got_active is None or bool(np.all(got_active))
+                else:
+                    # a realization may be flagged inactive only if every one of its function entries is inactive
+                    okf = got_active is None or not np.any(~got_active & want_active)
+                if not okf:
+                    obs.violation("row_flag_inactive_but_function_entry_active", kind=kind, active=got_active, active_objectives=rec["ao"], active_constraints=rec["ac"])
+                    return
             # ---- activity flags
             fres = next((r for r in results if hasattr(r, "functions")), None)
             wsrc = results[-1] if kind != "g" else results[0]
